@@ -1,7 +1,7 @@
 """C12 — patch application is all-or-nothing (structural clauses)."""
 import re
 
-from ..core import CheckError, Site, op_base, switches
+from ..core import CheckError, Site, op_base, op_place, switches
 from ..effects import Effects, site_effects
 from ..prov import reads_locals
 from .c01 import ok_edge_of_try
@@ -199,6 +199,37 @@ def run(ctx):
 
     # ---------------------------------------------------------------- C12.6
     ctx.rule('C12.6', 'the success result names what was touched: every file mutation in the operation closure (write / remove / rename of a safe_join result) is followed, on every non-error path to the next operation, by a push into the changed-files list of the patch-relative path that was resolved into it.')
+    def reads_after(g, mu_, push_):
+        """what the pushed name derives from ON THE PATHS THROUGH the mutation: when the pushed value is a local with
+        several definitions (`let final_path = match moved_to { Some(m) => { ..; m } None => { ..; path } }`), only the
+        definitions that lie between the mutation and the push count for that mutation."""
+        out = set()
+        work = [push_.args[1]]
+        seen_l = set()
+        while work:
+            o = work.pop()
+            pl = op_place(o)
+            if pl is None:
+                continue
+            l = pl['l']
+            if l in seen_l:
+                continue
+            seen_l.add(l)
+            out.add(l)
+            ds = list(g.defs(l))
+            if len(ds) > 1:
+                h_ = g.innermost_loop(mu_.bb)
+                same_iter = g.reach(mu_.bb, stop=[h_] if h_ is not None else [])       # without starting the next operation
+                on_path = [d_ for d_ in ds if d_[0] in same_iter and d_[0] != h_ and push_.bb in g.reach(d_[0], stop=[h_] if h_ is not None else [])]
+                if on_path:
+                    ds = on_path
+            for (bi, si, kind, payload, _ln) in ds:
+                ops = payload['a'] if kind == 'call' else payload.get('a', [])
+                for a in ops:
+                    work.append(a)
+                if kind != 'call' and 'pl' in payload:
+                    work.append({'c': payload['pl']})
+        return out
     joins = {}
     for j in op_cl.calls(r'Workspace::safe_join$'):
         x = op_cl.root_local(j.args[1], through_calls=(r'::as_ref$', r'::deref$', r'::as_path$'))
@@ -217,7 +248,7 @@ def run(ctx):
                 continue
             x = next(iter(xs))
             n6 += 1
-            pbs = [p_.bb for p_ in pushes6 if x in reads_locals(op_cl, p_.args[1])]
+            pbs = [p_.bb for p_ in pushes6 if x in reads_after(op_cl, mu, p_)]
             h6 = op_cl.innermost_loop(mu.bb)
             targets = list(op_cl.returns()) + ([h6] if h6 is not None else [])
             ok = bool(pbs) and op_cl.must_pass(pbs + errs6, mu.bb, targets) if not any(op_cl.dom(b, mu.bb) for b in pbs) else True
